@@ -144,9 +144,18 @@ func (u *unit) run() {
 		}
 		s.names[p.Name()] = nameBinding{v: p}
 	}
+	var fvRefs []string
 	for _, fv := range u.fn.FreeVars {
-		s.get(fv)
+		v := s.get(fv)
 		s.names[fv.Name()] = nameBinding{v: fv, isAddr: true}
+		// captured variables are distinct allocated cells
+		if len(v.S) == 2 {
+			s.pc = append(s.pc, fmt.Sprintf("(> %s 0)", v.S[0]), eq(v.S[1], u.m.offConst(0)))
+			for _, o := range fvRefs {
+				s.pc = append(s.pc, not(eq(o, v.S[0])))
+			}
+			fvRefs = append(fvRefs, v.S[0])
+		}
 	}
 	s.old = nil
 	e := s.contractEnv(u.ct, u.fn, nil, nil)
@@ -261,6 +270,21 @@ func (s *state) contractEnv(fc *funcContract, fn *ssa.Function, args []Val, resu
 		}
 	}
 	e := &env{u: u, st: s, old: s.old, vars: map[string]Val{}, pkg: pkg}
+	if fc != nil && fn != nil && len(fn.FreeVars) > 0 {
+		// a closure under contract: its captured variables by name
+		e.free = map[string]Val{}
+		for i, fv := range fn.FreeVars {
+			if s.cvBinds != nil && i < len(s.cvBinds) {
+				e.free[fv.Name()] = s.cvBinds[i]
+			} else if fn == u.fn {
+				if v, ok := u.entryVals[fv]; ok {
+					e.free[fv.Name()] = v
+				} else {
+					e.free[fv.Name()] = s.get(fv)
+				}
+			}
+		}
+	}
 	if fn != nil && args != nil {
 		for i, p := range fn.Params {
 			if i < len(args) {
